@@ -13,7 +13,9 @@ RULE = (
     "image2sky/sky2image/get_jacobian; every Cosmo method in every array/scalar combination; HTM lookup_id/"
     "match/intersect/bincount and Matcher) x each array argument x memory variant {native contiguous, "
     "byte-swapped, strided view of a larger buffer, negative stride, float32, int64, 0-d, 2-d, read-only} "
-    "one at a time and all arguments at once.  Every case snapshots the BASE buffer, dtype, shape, strides "
+    "one at a time and all arguments at once; plus, for every function with boolean/enumerated keyword options, "
+    "the FULL product of those options (option lattices: e.g. eq2xyz dtype x units x stomp, histogram "
+    "binning x min x max x rev x more x mergelast x weights, write delim x padnull x ignorenull).  Every case snapshots the BASE buffer, dtype, shape, strides "
     "and flags of every argument before the call and compares after it, also when the call raises.  "
     "non-trivial = the variant forces an internal conversion (everything but 'native')."
 )
@@ -284,6 +286,132 @@ def main(ctx):
     spec("integrate.QGauss.integrate(data)", dict(x=np.array([0.0, 1.0, 3.0, 4.0]), y=np.array([1.0, 2.0, 0.0, 1.0])),
          lambda x, y: integrate.QGauss(5).integrate(x, y))
 
+    # ------------------------------------------------ option lattices (full products)
+    # For every function below ALL combinations of its boolean / enumerated keyword options are
+    # registered (a hand-picked option set misses e.g. the one branch `units='rad', stomp=True` that
+    # works on the caller's array).  Array arguments named in `kwarr` are passed by keyword.
+    import itertools
+
+    def ospec(name, f, arrays, options, kwarr=(), fixed=None):
+        keys = list(options)
+        for combo in itertools.product(*[options[k] for k in keys]):
+            kw = dict(zip(keys, combo))
+            nm = "%s[%s]" % (name, ",".join("%s=%r" % (k, kw[k]) for k in keys))
+
+            def call(_kw=kw, _f=f, _names=list(arrays), **arrs):
+                pos = [arrs[k] for k in _names if k not in kwarr]
+                kws = {k: arrs[k] for k in _names if k in kwarr}
+                kws.update(_kw)
+                kws.update(fixed or {})
+                return _f(*pos, **kws)
+            SPECS[nm] = (dict(arrays), call)
+
+    BO = [False, True]
+    # numbers that are valid both as degrees and as radians (ra in [0,2pi), |dec| <= pi/2)
+    ura = np.array([0.2, 3.5, 6.2, 0.8])
+    udec = np.array([-0.35, 0.8, 1.5, 0.0])
+    ura2 = np.array([0.21, 3.4, 0.1, 3.9])
+    udec2 = np.array([-0.3, 0.7, -1.5, 0.02])
+    for nm in ("eq2gal", "gal2eq", "eq2ec", "ec2eq", "ec2gal", "gal2ec"):
+        ospec("coords." + nm, getattr(C, nm), dict(a=ura, b=udec), dict(b1950=BO, dtype=["f8", "f4"]))
+    ospec("coords.euler", lambda a, b, select, **kw: C.euler(a, b, select, **kw), dict(a=ura, b=udec),
+          dict(select=[1, 2, 3, 4, 5, 6], b1950=BO, dtype=["f8", "f4"]))
+    ospec("coords.eq2sdss", C.eq2sdss, dict(a=ura, b=udec), dict(dtype=["f8", "f4"]))
+    ospec("coords.sdss2eq", C.sdss2eq, dict(a=udec, b=ura - 3.0), dict(dtype=["f8", "f4"]))
+    ospec("coords.eq2xyz", C.eq2xyz, dict(a=ura, b=udec), dict(dtype=["f8", "f4"], units=["deg", "rad"], stomp=BO))
+    ospec("coords.xyz2eq", C.xyz2eq, dict(a=x3, b=y3, c=z3), dict(units=["deg", "rad"], stomp=BO))
+    ospec("coords.gcirc", C.gcirc, dict(a=ura, b=udec, c=ura2, d=udec2), dict(getangle=BO))
+    ospec("coords.sphdist", C.sphdist, dict(a=ura, b=udec, c=ura2, d=udec2),
+          dict(units=[["deg", "deg"], ["rad", "rad"], ["deg", "rad"], ["rad", "deg"]]))
+    for nm in ("shiftlon", "shiftra"):
+        ospec("coords." + nm, getattr(C, nm), dict(a=ra), dict(shift=[None, 0.0, 10.0, -10.0, 350.0], wrap=BO))
+    ospec("coords.rotate", lambda a, b, ang: C.rotate(ang[0], ang[1], ang[2], a, b), dict(a=ra, b=dec),
+          dict(ang=[(0.0, 0.0, 0.0), (10.0, 0.0, 30.0), (10.0, 20.0, 30.0), (0.0, 90.0, 0.0), (0.0, 180.0, 5.0)]))
+    ospec("coords.radec2aitoff", C.radec2aitoff, dict(a=ra, b=dec), dict())
+    ospec("coords.randsphere-args", lambda a, b, system: C.randsphere(3, ra_range=a, dec_range=b, system=system,
+                                                                       rng=np.random.RandomState(1)),
+          dict(a=np.array([10.0, 35.0]), b=np.array([-25.0, 15.0])), dict(system=["eq", "xyz"]))
+
+    # stat
+    for binning in (dict(binsize=1.0), dict(nbin=3), dict(nperbin=2)):
+        bname = list(binning)[0]
+        ospec("stat.histogram(%s)" % bname, stat.histogram, dict(a=xx), dict(min=[None, 1.5], max=[None, 6.0], rev=BO,
+              more=BO, mergelast=BO), fixed=binning)
+        ospec("stat.histogram(%s,weights)" % bname, stat.histogram, dict(a=xx, weights=ww),
+              dict(min=[None, 1.5], max=[None, 6.0], rev=BO, more=BO), kwarr=("weights",), fixed=binning)
+
+        def bdo(a, y, weights, _b=binning, **kw):
+            b = stat.Binner(a, y, weights=weights)
+            b.dohist(**dict(_b, **kw))
+            b.calc_stats()
+            return b
+        ospec("stat.Binner(%s)" % bname, bdo, dict(a=xx, y=yy, weights=ww), dict(min=[None, 1.5], max=[None, 6.0], rev=BO,
+              calc_stats=BO), kwarr=("weights",))
+    ospec("stat.histogram2d", stat.histogram2d, dict(a=xx, b=yy), dict(rev=BO, more=BO), fixed=dict(nx=2, ny=3))
+    ospec("stat.histogram2d(z,weights)", stat.histogram2d, dict(a=xx, b=yy, z=yy + 1, weights=ww), dict(rev=BO, more=BO),
+          kwarr=("z", "weights"), fixed=dict(nx=2, ny=3))
+    ospec("stat.wmom", stat.wmom, dict(a=xx, w=ww), dict(inputmean=[None, 0.0, 2.0], calcerr=BO, sdev=BO))
+    ospec("stat.wmom(Nxd)", stat.wmom, dict(a=xx.reshape(3, 2).copy(), w=ww[:3].copy()), dict(calcerr=BO, sdev=BO))
+    ospec("stat.sigma_clip", stat.sigma_clip, dict(a=xx), dict(niter=[0, 1, 4], nsig=[1.0, 4], get_err=BO, get_indices=BO),
+          fixed=dict(silent=True))
+    ospec("stat.sigma_clip(weights)", stat.sigma_clip, dict(a=xx, weights=ww),
+          dict(niter=[0, 1, 4], nsig=[1.0, 4], get_err=BO, get_indices=BO), kwarr=("weights",), fixed=dict(silent=True))
+    ospec("stat.get_stats", stat.get_stats, dict(a=xx), dict(nsig=[None, 2.0]))
+    ospec("stat.get_stats(weights)", stat.get_stats, dict(a=xx, weights=ww), dict(nsig=[None, 2.0], inputmean=[None, 2.0]),
+          kwarr=("weights",))
+    ospec("stat.interplin(scalar u)", lambda v, x, u0: stat.interplin(v, x, u0), dict(v=yy[:5], x=np.array([1.0, 2.0, 2.5, 3.0, 7.0])),
+          dict(u0=[0.0, 2.2, 9.0]))
+
+    # numpy_util
+    plain = {"struct": st, "f8": xx, "i4": np.arange(6, dtype="i4"), "2d": np.arange(6.0).reshape(2, 3)}
+    for fname in ("byteswap", "to_native", "to_big_endian", "to_little_endian"):
+        for pk, pv in plain.items():
+            ospec("nu.%s(%s)" % (fname, pk), getattr(nu, fname), dict(a=pv), dict(inplace=[False], keep_dtype=BO))
+    for fname in ("match", "match_multi"):
+        ospec("nu." + fname, getattr(nu, fname), dict(a=np.sort(ia), b=ib), dict(presorted=BO))
+    ospec("nu.unique", nu.unique, dict(a=ib), dict(values=BO))
+    ospec("nu.rem_dup", nu.rem_dup, dict(a=ib, f=np.array([0, 1, 2, 3, 4, 1])), dict(values=BO))
+    ospec("nu.extract_fields", nu.extract_fields, dict(a=st), dict(keepnames=[["x"], ["s", "x"], ["x", "v", "s", "b"], ("b", "zz")],
+          strict=BO))
+    ospec("nu.reorder_fields", nu.reorder_fields, dict(a=st), dict(ordered_names=[["s"], ["b", "x"], ["x", "v", "s", "b"], ["zz", "x"]],
+          strict=BO))
+    ospec("nu.remove_fields", nu.remove_fields, dict(a=st), dict(rmnames=["x", ["x", "b"], ["zz"]]))
+    ospec("nu.add_fields", nu.add_fields, dict(a=st), dict(add_dtype_or_descr=[[("n", "f4")], [("n", "S2"), ("m", ">i4", (2,))]],
+          defaults=[None]))
+    ospec("nu.split_fields", nu.split_fields, dict(a=st), dict(fields=[None, ["x"], ["s", "v"]], getnames=BO))
+    ospec("nu.compare_arrays", nu.compare_arrays, dict(a=st, b=st[::-1].copy()), dict(ignore_missing=BO), fixed=dict(verbose=False))
+    ospec("nu.between", nu.between, dict(a=xx), dict(type=["[]", "[)", "(]", "()"]), fixed=dict(lowval=2.0, highval=3.0))
+    ospec("nu.outside", nu.outside, dict(a=xx), dict(type=["[]", "[)", "(]", ")("]), fixed=dict(lowval=2.0, highval=3.0))
+    ospec("nu.arrscl", nu.arrscl, dict(a=xx), dict(arrmin=[None, 0.0], arrmax=[None, 10.0]), fixed=dict(minval=0.0, maxval=1.0))
+    ospec("nu.combine_arrlist", lambda a, b, keep: nu.combine_arrlist([a, b], keep=keep), dict(a=st, b=st[:2].copy()), dict(keep=BO))
+    ospec("nu.arr2str", nu.arr2str, dict(a=xx), dict(brackets=BO))
+
+    # record files: the full product of the write options
+    for wname, wf in (("sfile.write", lambda a, t, **kw: sfile.write(fname_for("os" + t), a, **kw)),
+                      ("recfile.write", lambda a, t, **kw: recfile.write(fname_for("or" + t), a, **kw)),
+                      ("io.write", lambda a, t, **kw: eu.io.write(fname_for("oi" + t), a, **kw))):
+        ospec(wname, lambda a, _wf=wf, **kw: _wf(a, "%s%d%d" % (("b" if kw["delim"] is None else "d%d" % ord(kw["delim"])),
+                                                                 kw.get("padnull", 0), kw.get("ignorenull", 0)), **kw),
+              dict(a=ft), dict(delim=[",", " ", "\t", ":"], padnull=BO, ignorenull=BO))
+    ospec("Recfile.write", lambda a, **kw: _rec_write(recfile, fname_for("orw"), a, **kw), dict(a=ft),
+          dict(delim=[None, ",", " "], bracket_arrays=BO, padnull=BO))
+
+    # wcs, htm: every option combination
+    for hname, h, (l1, l2) in (("tpv", hd, (lon, lat)), ("sip", sip, (slon, slat)), ("tan", tan, (tlon, tlat))):
+        ospec("wcs.image2sky(%s)" % hname, lambda a, b, _h=h, **kw: wcsutil.WCS(dict(_h)).image2sky(a, b, **kw), dict(a=px, b=py),
+              dict(distort=BO))
+        ospec("wcs.sky2image(%s)" % hname, lambda a, b, _h=h, **kw: wcsutil.WCS(dict(_h)).sky2image(a, b, **kw),
+              dict(a=l1[:2], b=l2[:2]), dict(distort=BO, find=BO))
+        ospec("wcs.get_jacobian(%s)" % hname, lambda a, b, _h=h, **kw: wcsutil.WCS(dict(_h)).get_jacobian(a, b, **kw),
+              dict(a=px, b=py), dict(distort=BO, step=[1.0, 0.5]))
+    ospec("htm.match", lambda a, b, c, d, **kw: hobj.match(a, b, c, d, 2.0, **kw), dict(a=ra, b=dec, c=ra2, d=dec2),
+          dict(maxmatch=[-1, 0, 1, 2]))
+    ospec("htm.match(radius array)", lambda a, b, c, d, r, **kw: hobj.match(a, b, c, d, r, **kw),
+          dict(a=ra, b=dec, c=ra2, d=dec2, r=rad), dict(maxmatch=[-1, 0, 1, 2]))
+    ospec("htm.bincount", lambda a, b, c, d, **kw: hobj.bincount(0.1, 5.0, 3, a, b, c, d, **kw), dict(a=ra, b=dec, c=ra2, d=dec2),
+          dict(scale=[None, 2.0], getbins=BO))
+    ospec("htm.intersect-scalars", lambda inclusive: hobj.intersect(10.0, 20.0, 1.0, inclusive=inclusive), dict(), dict(inclusive=BO))
+
     # ---------------------------------------------------------------- runner
     def one(case, rec):
         sname, target, variant = case
@@ -359,6 +487,11 @@ def _binner(stat, a, y, w):
     b2 = stat.Binner(a, y=y, weights=w)
     b2.dohist(binsize=1.0, rev=True)
     return b, b2
+
+
+def _rec_write(recfile, fn, a, **kw):
+    with recfile.Recfile(fn, mode="w", **kw) as r:
+        r.write(a)
 
 
 def _sfile_twice(sfile, fn, a, b, delim):
